@@ -193,6 +193,52 @@ def ticking(ctx):
         c.time = old
 
 
+
+def skewed_clocks(ctx):
+    """"at whatever wall-clock time the protect call happens": the unprotecting side (another host, a fresh cache holding the same root
+    key) may see an EARLIER clock than the protecting side did — a blob naming an interval that has not started by the local clock must
+    still decrypt from the root key, without a domain controller"""
+    import asyncio, uuid
+    import dpapi_ng, dpapi_ng._client as c, dpapi_ng._dns as d
+    from dpapi_ng import _gkdi as g
+    B, EPOCH = 360000000000, 116444736000000000
+    rk = uuid.UUID("d778c271-9025-9a82-f6dc-b8960b8ad8c5")
+    root = bytes(range(9, 73))
+    old = c.time
+
+    def at(ft):
+        ns = (ft - EPOCH) * 100
+        return type("T", (), {"time_ns": staticmethod(lambda: ns)})
+    try:
+        for hn in ("SHA512", "SHA1"):
+            for (l0, l1, l2) in ((361, 17, 13), (361, 31, 31), (362, 0, 0)):
+                t_protect = ((l0 * 32 + l1) * 32 + l2) * B + 77
+                for back, label in ((0, "same clock"), (B, "one L2 interval earlier"), (40 * B, "an L1 interval earlier"), (1100 * B, "an L0 interval earlier"),
+                                    (t_protect - EPOCH - 5, "1970")):
+                    for use_async in (False, True):
+                        a_, b_ = dpapi_ng.KeyCache(), dpapi_ng.KeyCache()
+                        for ch in (a_, b_):
+                            ch.load_key(root, root_key_id=rk, kdf_parameters=g.KDFParameters(hn).pack())
+                        data = b"skewed " + label.encode()
+                        c.time = at(t_protect)
+                        blob = dpapi_ng.ncrypt_protect_secret(data, "S-1-5-18", root_key_identifier=rk, cache=a_)
+                        c.time = at(t_protect - back)
+                        inp = {"scenario": "skewed_clocks", "hash": hn, "protect_interval": [l0, l1, l2], "unprotect_clock": label, "async": use_async}
+                        for wire in (blob, relayout(blob)):
+                            try:
+                                got = asyncio.run(dpapi_ng.async_ncrypt_unprotect_secret(wire, cache=b_, server="dc.invalid")) if use_async else \
+                                    dpapi_ng.ncrypt_unprotect_secret(wire, cache=b_, server="dc.invalid")
+                            except Exception as e:  # noqa
+                                got = ("raised " + canon_exc(e)).encode()
+                            ctx.count("skewed_clocks:" + label)
+                            if got != data:
+                                ctx.violation("a blob protected under a later clock does not decrypt on a fresh cache holding the root key",
+                                              inp, got.decode("latin-1")[:100], data.decode())
+                                return
+    finally:
+        c.time = old
+
+
 def run(ctx):
     prelude.validate(ctx)
     rng = ctx.rng
@@ -236,6 +282,7 @@ def run(ctx):
             n = rng.choice(lens)
             roundtrip(ctx, True, rec, bytes(rng.randrange(256) for _ in range(min(n, 5000))) + b"\x00" * max(0, n - 5000), sids(rng, 1)[0], clocks(rng, 1)[0], mode, rng.random() < 0.3, [])
     ticking(ctx)
+    skewed_clocks(ctx)
 
 
 def search(ctx, broken, disagreements):
@@ -245,6 +292,12 @@ def search(ctx, broken, disagreements):
 def replay(ctx, payload):
     v = payload["violation"]["input"]
     print("recorded input:", v)
+    if v.get("scenario") == "skewed_clocks":
+        c2 = type(ctx)(ctx.prop, "quick", ctx.seed)
+        skewed_clocks(c2)
+        for x in c2.violations:
+            print(" ", x["what"], x["input"], x["observed"])
+        return not c2.violations
     if v.get("scenario") == "ticking_clock":
         c2 = type(ctx)(ctx.prop, "quick", ctx.seed)
         ticking(c2)
